@@ -31,6 +31,11 @@ Sensitivity (quick tier, seed 1, scratch copies; all caught = exit 1):
   * range upper bound: ``hi = ... else None`` and ``range(lo, (hi or lo) + 1)`` (an upper bound of exactly 0 treated
     as missing: ``-3:0`` -> ``[-3]``, ``1:0`` -> ``[1]``) ... caught (C44.value; the range generator now has bounds
     -2..2 on both sides, ``lo:0``, ``0:hi`` and descending pairs -- added after third-round mutation testing)
+  * float options validated against ``_FLOAT_PATTERN`` before ``float()`` (``inf``, ``-inf``, ``nan`` -- the repr() of
+    non-finite floats -- rejected with options.Error) ... caught (C44.valid_input_rejected); the float generator now
+    has inf/-inf/nan, extreme exponents and the literal spellings 1e308, 5e-324, 1E5, +1.5, .5, 5., -0.0 (must parse
+    to float(text), compared exactly incl. nan and the sign of zero), lenient spellings (Infinity, +inf, " 1.5 ",
+    1_0.5) are value-or-error (sixth-round mutation testing)
   * ``_parse_timedelta``: ``_TIMEDELTA_PATTERN.match(value, start)`` -> ``.search(value, start)`` (junk before or
     between components skipped: ``x45s``, ``about 45s``, ``1h, 30m``, ``=45``) ... caught (C44.bad_input_accepted,
     negative kind ``td_junk``: junk before / between / after otherwise valid components, command line and
@@ -148,6 +153,19 @@ def realise_scalar(tname, spec, labels):
         return " %d " % i, Either("value_or_error", i)
     if tname == "float":
         form, f = spec
+        if form == "lit":
+            # a literal spelling: f is the text.  Spellings in FLOAT_EITHER_LITERALS are accepted by float() but a
+            # stricter parser could refuse them: value or error, never another value
+            labels.add("alt_float_form")
+            v = float(f)
+            if v != v or v in (float("inf"), float("-inf")):
+                labels.add("float_non_finite")
+            if f in FLOAT_EITHER_LITERALS:
+                labels.add("float_lenient_spelling_EITHER")
+                return f, Either("value_or_error", v)
+            return f, v
+        if f != f or f in (float("inf"), float("-inf")):
+            labels.add("float_non_finite")
         if form == "repr":
             text = repr(f)
         elif form == "e":
@@ -233,12 +251,12 @@ def matches(got, exp):
             got_us = (got.days * 86400 + got.seconds) * 10 ** 6 + got.microseconds
             return abs(Fraction(got_us) - total) <= n  # each group is rounded to a microsecond
         if exp.kind == "value_or_error":
-            return type(got) is int and got == exp.value
+            return matches(got, exp.value)
         raise AssertionError(exp.kind)
     if isinstance(exp, bool):
         return got == exp and (type(got) is bool or type(got) is int)  # multiple bool goes through range()
     if isinstance(exp, float):
-        return type(got) is float and got == exp
+        return type(got) is float and repr(got) == repr(exp)  # exact: also nan, inf and the sign of zero
     return type(got) is type(exp) and got == exp
 
 
@@ -253,7 +271,7 @@ def native_literal(opt, exp, labels):
                     return None
                 return "__import__('datetime').timedelta(microseconds=%d)" % int(total)
             if e.kind == "value_or_error":
-                return repr(e.value)
+                return one(e.value)
             return None
         if isinstance(e, datetime.datetime):
             return "__import__('datetime').datetime(%d, %d, %d, %d, %d, %d)" % (
@@ -347,7 +365,7 @@ def run_case(ctx, case):
                     ctx.fail("C44.value", {"where": where, "option": d, "got": repr(got_a), "expected": repr(_show(exp)),
                                            "text": texts.get(i)})
             else:
-                if got_a != defaults[i] or (defaults[i] is not None and type(got_a) is not type(defaults[i])):
+                if not _same(got_a, defaults[i]) or (defaults[i] is not None and type(got_a) is not type(defaults[i])):
                     ctx.fail("C44.unset_keeps_default", {"where": where, "option": d, "got": repr(got_a),
                                                          "default": repr(defaults[i])})
             if not (_same(got_a, got_i) and _same(got_a, got_d)):
@@ -643,8 +661,17 @@ name_s = st.tuples(
 int_s = st.one_of(st.integers(-10 ** 6, 10 ** 6), st.integers(-10 ** 30, 10 ** 30), st.sampled_from([0, -1, 1, 2 ** 63, -2 ** 63]))
 int_spec_s = st.tuples(st.sampled_from(["canon"] * 5 + ["plus", "zeros", "spaces"]), int_s)
 float_s = st.one_of(st.floats(allow_nan=False, allow_infinity=False), st.sampled_from([0.0, -0.0, 1.5, 1e300, 5e-324, 0.1, -2.5]),
-                    st.integers(-1000, 1000).map(float))
-float_spec_s = st.tuples(st.sampled_from(["repr", "repr", "e", "fixed", "int"]), float_s)
+                    st.integers(-1000, 1000).map(float),
+                    st.sampled_from([float("inf"), float("-inf"), float("nan"), 1e308, 1.7976931348623157e308, 2.2250738585072014e-308]))
+# spellings float() documents and every float parser should take (repr() of non-finite floats included) ...
+FLOAT_LITERALS = ["inf", "-inf", "nan", "1e308", "1e+308", "5e-324", "1E5", "+1.5", ".5", "5.", "-0.0", "-.5e-3", "0e0", "1e400", "1e-400"]
+# ... and spellings float() also takes but a stricter parser might not
+FLOAT_EITHER_LITERALS = ["Infinity", "+inf", "-Infinity", "NaN", "INF", " 1.5 ", "1_0.5", "+nan"]
+float_spec_s = st.one_of(
+    st.tuples(st.sampled_from(["repr", "repr", "e", "fixed", "int"]), float_s),
+    st.tuples(st.just("repr"), st.floats(allow_nan=True, allow_infinity=True)),
+    st.tuples(st.just("lit"), st.sampled_from(FLOAT_LITERALS + FLOAT_LITERALS + FLOAT_EITHER_LITERALS)),
+)
 bool_text_s = st.sampled_from(["true", "false", "1", "0", "t", "f", "True", "FALSE", "T", "F", "False", "TRUE"] * 3
                               + ["yes", "no", "off", "on", "", "2", "y", "n", "nil"])
 str_s = st.one_of(
